@@ -109,7 +109,10 @@ where
         writeln!(writer, "pub struct {rust_name} {{")?;
         for (part_name, header) in &soap_operation.headers {
             let field_name = as_field_name(part_name);
-            let rust_type = header.rust_type.xml_name().ok_or(WriterError::InvalidReference)?;
+            // the header entry is the element the part refers to: it goes on the wire under the
+            // element's name, and its type is declared under the PascalCase name
+            let xml_name = header.rust_type.xml_name().ok_or(WriterError::InvalidReference)?;
+            let rust_type = to_pascal_case(xml_name);
 
             if let Some(namespace) = header.in_namespace.as_ref() {
                 let abbreviation = namespace.abbreviation.as_str();
@@ -144,9 +147,9 @@ where
         write_check_restrictions_footer(writer)?;
     }
 
-    let body = soap_operation.body.rust_type.xml_name().ok_or(WriterError::InvalidReference)?;
-    let body_field_name = as_field_name(&to_snake_case(body));
     let xml_name = soap_operation.body.rust_type.xml_name().ok_or(WriterError::InvalidReference)?;
+    let body_field_name = as_field_name(&to_snake_case(xml_name));
+    let body = to_pascal_case(xml_name);
 
     writeln!(writer, "#[derive(Debug, Default, YaSerialize, YaDeserialize)]")?;
 
